@@ -203,7 +203,11 @@ func c10Digits(name string, k int) (string, int64) {
 func VerifH_C10_parse() {
 	kind := vRange("kind", 0, 2)
 	name := []string{"node", "way", "relation"}[kind]
-	refTxt, ref := c10Digits("refDigit", []int{1, 12}[vRange("refDigits", 0, 1)])
+	nd := []int{1, 12}[vRange("refDigits", 0, 1)]
+	if vParam("allRefLengths", 0) == 1 {
+		nd = vRange("refLength", 1, 13)
+	}
+	refTxt, ref := c10Digits("refDigit", nd)
 	vAssume(ref < 1<<40)
 	vmode := vRange("versionMode", 0, 3) // 0 absent, 1 ":-", 2 one digit, 3 five digits
 	s := name + "/" + refTxt
